@@ -1,6 +1,8 @@
 from vfw import Unit, Ob
 DOC = ['ARENA_N=6', 'ARENA_CHUNK=64', 'ARDUINOJSON_POOL_CAPACITY=4', 'ARDUINOJSON_INITIAL_POOL_COUNT=2']
 UNITS = [Unit('doc', 'wrappers/doc.cpp', defs=DOC, cuts={'CUT_MF_F': r'10make_floatIfiE', 'CUT_MF_D': r'10make_floatIdiE', 'CUT_DECOMP': r'14decomposeFloatEda'})]
+for tw, tn in [(0, 'charptr'), (1, 'jsonstring_copied')]:
+    pass
 K3 = dict(fs=4096, cap=300, hunwind=40, objbits=12)
 OBS = []
 for k, b in [('i32', 'all 2^32 values'), ('u32', 'all 2^32 values'), ('i64', 'all 2^64 values'), ('u64', 'all 2^64 values'), ('f32', 'all 2^32 bit patterns'), ('f64', 'all 2^64 bit patterns')]:
@@ -13,10 +15,13 @@ for nm, what, b in [('ops_str_ptr', 'variant(2-byte string) vs C string "ab": si
                     ('ops_str_var', 'two string variants in two documents: coherence laws; equal iff identical bytes', 'all pairs of 2-byte strings'),
                     ('ops_int_scalar', 'variant(int64) vs int32 scalar: coherence laws and value order', 'all values'),
                     ('arr_eq', 'array equality [x,y] vs [z,w] / [z]', 'all byte-sized x,y,z,w')]:
-    OBS.append(Ob(['C18'], nm, 'doc', 'harness/doc_ops.c', 'h_' + nm, unwind=8, desc=what, bound=b + '; public API on an arena allocator', **K3))
+    OBS.append(Ob(['C18', 'C14'] if 'str' in nm else ['C18'], nm, 'doc', 'harness/doc_ops.c', 'h_' + nm, unwind=8, desc=what, bound=b + '; public API on an arena allocator', **K3))
 OBS += [
  Ob(['C02'], 'ser_arr', 'doc', 'harness/doc_ser.c', 'h_ser_arr', unwind=14, desc='serializeJson([i,"s0s1",u], buf, cap) and measureJson: prefix / count / guard bytes / conditional NUL for every capacity', bound='i in -128..127, u in 0..255 (1-4 characters each), both string bytes (all 256 values), capacity 0..length+2', **dict(K3, hunwind=44)),
  Ob(['C02'], 'ser_scalar', 'doc', 'harness/doc_ser.c', 'h_ser_scalar', unwind=8, desc='serializeJson(integer scalar, buf, cap): prefix / count / NUL for every capacity', bound='values -128..127, capacity 0..length+2', **dict(K3, hunwind=34)),
  #Ob(['C02'], 'ser_raw_nonfinite', 'doc', 'harness/doc_ser.c', 'h_ser_raw_nonfinite', unwind=10, desc='raw values verbatim; NaN / +-Infinity serialize as null (default configuration)', bound='raw value of 0..3 symbolic bytes, all capacities', **dict(K3, hunwind=24)),
 ]
 OBS.append(Ob(['C08', 'C02'], 'mser_arr', 'doc', 'harness/doc_ser.c', 'h_mser_arr', unwind=10, desc='serializeMsgPack([i,"s0s1",b,nil], buf, cap) and measureMsgPack: conforming bytes in element order, count = min(cap,len), prefix only, guard bytes', bound='i in -128..127, both string bytes, b, capacity 0..length+2', **dict(K3, hunwind=26)))
+for tw, tn in [(0, 'charptr'), (1, 'jsonstring_copied')]:
+    OBS.append(Ob(['C14', 'C13'], 'str_twins_exp2_%s' % tn, 'doc', 'harness/doc_str.c', 'h_str_twins', defs=['EXP2=1', 'TWIN=%d' % tw], unwind=9,
+        desc='numeric string DeDD (exponents 00..99, single- and double-precision paths) given as const char* (linked) vs %s: identical as<T>()' % tn, bound='all 1000 digit triples; exactly-sized source buffers', **K3))
